@@ -54,6 +54,18 @@ AscendingOK == Checked => \A a, b \in DOMAIN MechSeq :
 EveryIdOnce == Checked => \A id \in 1..nSamp : \A o \in 1..nOut :
    Cardinality({q \in DOMAIN MechSeq : MechSeq[q][1] = id /\ MechSeq[q][3] = o}) = NT
 
+\* ---- provenance of posterior and averaged predictive samples (checked by the replayer's law stage) ---------------
+\* A posterior holds NCh chains x NDr draws of a complete parameter set for each individual.  One sample = one row
+\* <<chain, draw>> of the selected individual, every row with the same weight; the averaged model first chooses a member
+\* model with probability proportional to its weight.  Probabilities are <<numerator, denominator>> pairs.
+PosteriorRows(nch, ndr) == (1..nch) \X (1..ndr)
+PosteriorLaw(nch, ndr) == [r \in PosteriorRows(nch, ndr) |-> <<1, nch * ndr>>]
+AveragedLaw(w, nch, ndr) == [mr \in (DOMAIN w) \X PosteriorRows(nch, ndr) |->
+                               <<w[mr[1]], FoldLeft(LAMBDA a, x : a + x, 0, w) * nch * ndr>>]
+LawsNormalised ==
+  /\ FoldSet(LAMBDA r, a : a + PosteriorLaw(3, 4)[r][1], 0, PosteriorRows(3, 4)) = PosteriorLaw(3, 4)[<<1, 1>>][2]
+  /\ LET L == AveragedLaw(<<2, 1>>, 3, 4) IN FoldSet(LAMBDA r, a : a + L[r][1], 0, DOMAIN L) = L[<<1, <<1, 1>>>>][2]
+
 Init == /\ nOut \in 1..MaxOut /\ nSamp \in 1..MaxSamp /\ nCov \in 0..MaxCov /\ withRegimen \in BOOLEAN
         /\ kind \in ModelKinds /\ (kind # "population" => nCov = 0)
         /\ times \in UNION {[1..k -> TimeDom] : k \in 1..MaxTimes} /\ phase = "raw"
